@@ -147,7 +147,7 @@ class FileScanHelper:
             source_provider = FileSourceProvider(next_file)
             self.__scan_file(source_provider, next_file_name)
             return True
-        except BadPluginError as this_exception:
+        except (BadPluginError, UnicodeDecodeError) as this_exception:
             self.__handle_scan_error(next_file, this_exception, allow_shortcut=True)
         except BadTokenizationError as this_exception:
             if not self.__continue_on_error:
@@ -235,7 +235,11 @@ class FileScanHelper:
             except Exception:
                 POGGER.info("Ending file to fix '$' with exception.", next_file_name)
                 raise
-        except (BadPluginError, BadPluginFixError) as this_exception:
+        except (
+            BadPluginError,
+            BadPluginFixError,
+            UnicodeDecodeError,
+        ) as this_exception:
             self.__handle_scan_error(next_file, this_exception, allow_shortcut=True)
         except BadTokenizationError as this_exception:
             if not self.__continue_on_error:
